@@ -25,6 +25,9 @@ class HippoLLSDBaseFormatter(base_llsd.base.LLSDBaseFormatter):
         self.type_map[Vector4] = self.TUPLECOORD
         self.type_map[Quaternion] = self.TUPLECOORD
         self.type_map[datetime.datetime] = self.DATETIME
+        # The formatters dispatch on exact type, these are what wire-parsed messages hold
+        self.type_map[JankStringyBytes] = self.BINARY
+        self.type_map[RawBytes] = self.BINARY
 
     def TUPLECOORD(self, v: TupleCoord):
         return self.ARRAY(v.data())
